@@ -25,6 +25,7 @@ type Env struct {
 	recSym     string
 	entryVars  map[string]Val
 	atCallSite bool
+	headEnv    *Env // loop step clauses: the state at the loop head of the iteration that just ended (athead)
 }
 
 var errSkipClause = fmt.Errorf("clause not usable at a call site")
@@ -739,6 +740,12 @@ func (e *Env) evalCall(n *ECall) (Val, error) {
 			return Val{}, err
 		}
 		return f.makeIface(&bstate{reach: "true", heap: e.heap, seg: f.newSeg()}, f.zeroVal(t), t), nil
+	}
+	if id.Name == "athead" && len(n.Args) == 1 {
+		if e.headEnv == nil {
+			return Val{}, fmt.Errorf("athead() is only meaningful in a loop step clause")
+		}
+		return e.headEnv.eval(n.Args[0])
 	}
 	if id.Name == "atlock" && len(n.Args) == 1 {
 		// the value of an expression right after the function's (last) lock acquisition:
